@@ -281,6 +281,9 @@ func c16Probes(ctx *vkit.Ctx, routes []c16Route, words []string) {
 	ctx.Probe("D-C16-6", func(cs *vkit.Case) string {
 		f := newC16Fix(ctx, cs, [3]string{"p", "p/q", "q"})
 		defer f.close()
+		if f.namesRejected {
+			return "" // an index called "p/q" cannot exist: the scenario has no subject
+		}
 		var fails []string
 		tR := f.mint("read", []string{"p"})
 		cs.Op("read[p]: GET /vector/indexes/p%%2Fq/vectors/n0")
@@ -305,6 +308,9 @@ func c16Probes(ctx *vkit.Ctx, routes []c16Route, words []string) {
 	ctx.Probe("D-C16-7", func(cs *vkit.Case) string {
 		f := newC16Fix(ctx, cs, [3]string{"t", "t::u", "u"})
 		defer f.close()
+		if f.namesRejected {
+			return "" // an index called "t::u" cannot exist: the scenario has no subject
+		}
 		var fails []string
 		tR := f.mint("read", []string{"t"})
 		cs.Op("read[t]: POST /graph/actions/get-edges {index_name:t, source_id:u::n0}")
